@@ -116,14 +116,14 @@ func seqFamilies(w *world) []*Family {
 		}
 		for _, n := range counts {
 			n := n
-			emit(seq(fmt.Sprintf("seq/orphans/one-message/distinct-heights=%d", n), playOpt{}, func() []wire {
+			emit(seq(fmt.Sprintf("seq/orphans/one-message/distinct-heights=%d", n), playOpt{items: n}, func() []wire {
 				var l types.Blocks
 				for i := 0; i < n; i++ {
 					l = append(l, junkOrphan(uint32(10+i), 0))
 				}
 				return []wire{{0x08, enc(l)}}
 			}))
-			emit(seq(fmt.Sprintf("seq/orphans/one-message/descending-heights=%d", n), playOpt{}, func() []wire {
+			emit(seq(fmt.Sprintf("seq/orphans/one-message/descending-heights=%d", n), playOpt{items: n}, func() []wire {
 				var l types.Blocks
 				for i := n - 1; i >= 0; i-- {
 					l = append(l, junkOrphan(uint32(10+i), 0))
@@ -131,7 +131,7 @@ func seqFamilies(w *world) []*Family {
 				return []wire{{0x08, enc(l)}}
 			}))
 		}
-		emit(seq("seq/orphans/one-height-x10000", playOpt{}, func() []wire {
+		emit(seq("seq/orphans/one-height-x10000", playOpt{items: 10000}, func() []wire {
 			var l types.Blocks
 			for i := 0; i < 10000; i++ {
 				b := junkOrphan(77, 0)
@@ -218,7 +218,7 @@ func seqFamilies(w *world) []*Family {
 		for _, n := range []int{100, 10000} {
 			for _, q := range []int{1, 100, 1000} {
 				n, q := n, q
-				emit(seq(fmt.Sprintf("seq/discover/fill=%d/requests=%d", n, q), playOpt{}, func() []wire {
+				emit(seq(fmt.Sprintf("seq/discover/fill=%d/requests=%d", n, q), playOpt{items: n + q}, func() []wire {
 					var nodes []string
 					for i := 0; i < n; i++ {
 						nodes = append(nodes, nodeString(node.K(fmt.Sprintf("found-%d", i)), fmt.Sprintf("10.%d.%d.%d:7001", i>>16&255, i>>8&255, i&255)))
